@@ -34,7 +34,7 @@ META = {
                   'simulation <= 3 ranges x 3 candidates, random <= 5 ranges x 5 candidates; handler histories exhaustive to '
                   'depth 3 (quick) / 4 (thorough) over 3 keys x 2 handlers x 2 objects, random to 30 operations. '
                   'Type/subtype case-insensitivity, commas inside quoted parameter values and q values that are not '
-                  'multiples of 0.001 are outside the generated grammar.  Handlers.__ior__ and copy() of an emptied mapping '
+                  'multiples of 0.000001 are outside the generated grammar.  Handlers.__ior__ and copy() of an emptied mapping '
                   'are excluded (not part of the property).  LRU eviction (maxsize 64) is not modelled: it can only remove '
                   'memo entries.  Trusted: TLC, the header renderer of this file.',
 }
@@ -70,12 +70,13 @@ def render_q(q, rng):
         return None
     if q == -2:
         return rng.choice(BADQ)
-    if q == 1000:
-        return rng.choice(['1', '1.', '1.0', '1.00', '1.000', '1.0000'])
-    base = ('%03d' % q).rstrip('0')
+    # q is in millionths; written with as many digits as it needs plus 0..n padding zeros (0-7 digits in all)
+    if q == QONE:
+        return rng.choice(['1', '1.', '1.0', '1.00', '1.000', '1.0000', '1.000000'])
+    base = ('%06d' % q).rstrip('0')
     if not base:
-        return rng.choice(['0', '0.', '0.0', '0.00', '0.000', '0.0000'])
-    return '0.' + base + '0' * rng.randint(0, 4 - len(base))
+        return rng.choice(['0', '0.', '0.0', '0.00', '0.000', '0.0000', '0.000000'])
+    return '0.' + base + '0' * rng.randint(0, 7 - len(base))
 
 
 def render_params(pm, rng, q=None, vary=True):
@@ -120,10 +121,13 @@ def _exc_kind(ex):
     return 'value' if isinstance(ex, InvalidMediaType) else 'other'
 
 
-def _thousandths(q):
-    qi = int(round(q * 1000))
-    if abs(q * 1000 - qi) > 1e-6:
-        return -7          # not a multiple of 0.001: cannot be what the header said
+QONE = 1000000
+
+
+def _millionths(q):
+    qi = int(round(q * QONE))
+    if abs(q * QONE - qi) > 1e-4:
+        return -7          # not a multiple of 0.000001: cannot be what the header said
     return qi
 
 
@@ -143,7 +147,7 @@ def make_request(header, kind):
 def call_quality(mstr, header):
     from falcon.util import mediatypes
     try:
-        return _thousandths(mediatypes.quality(mstr, header)), 'none', None
+        return _millionths(mediatypes.quality(mstr, header)), 'none', None
     except Exception as ex:  # noqa
         return 0, _exc_kind(ex), repr(ex)
 
@@ -615,7 +619,9 @@ def rand_range(rng):
         return {'t': '!', 's': '!', 'pm': [], 'q': -1}
     t, s = rand_ts(rng)
     u = rng.random()
-    q = -1 if u < 0.3 else -2 if u < 0.34 else 0 if u < 0.45 else 1000 if u < 0.52 else 500 if u < 0.6 else rng.randrange(1, 1000)
+    q = -1 if u < 0.3 else -2 if u < 0.34 else 0 if u < 0.45 else QONE if u < 0.52 else 500000 if u < 0.58 else \
+        1000 * rng.randrange(1, 1000) if u < 0.75 else \
+        rng.choice((100, 400, 490, 499, 500, 1000, 500100, 500400, 999900, 999999, 1, 123456)) if u < 0.9 else rng.randrange(1, QONE)
     return {'t': t, 's': s, 'pm': rand_pm(rng), 'q': q}
 
 
@@ -637,7 +643,7 @@ def leg_b_negotiation(ctx):
                 if rng.random() < 0.25:       # duplicates / near-duplicates differing in q or parameters
                     d = dict(rng.choice(hdr))
                     if rng.random() < 0.5 and d['t'] != '!':
-                        d['q'] = rng.choice((-1, 0, 500, 1000))
+                        d['q'] = rng.choice((-1, 0, 400, 500000, d['q'] + 300 if 0 <= d['q'] < QONE - 300 else 0, QONE))
                     hdr.insert(rng.randrange(len(hdr) + 1), d)
                 header = render_header(hdr, rng)
                 req = make_request(header, rng.choice(('wsgi', 'asgi')))
